@@ -392,4 +392,31 @@ theorem padAlignment_perm {l1 l2 : List Rec} (h : l1.Perm l2) (hp : ∀ f ∈ l1
     · rw [h1]; exact s1.2.1
     · rw [← he]; exact s1.2.2 f (h.mem_iff.mpr hf)
 
+theorem padAlignment_attained (l : List Rec) : padAlignment l = 1 ∨ ∃ f ∈ l, f.align = padAlignment l := by
+  have att : ∀ (l : List Rec) (m : Nat),
+      l.foldl (fun m f => if f.align > m then f.align else m) m = m ∨
+      ∃ f ∈ l, f.align = l.foldl (fun m f => if f.align > m then f.align else m) m := by
+    intro l
+    induction l with
+    | nil => intro m; simp
+    | cons x r ih =>
+      intro m
+      simp only [List.foldl_cons]
+      rcases ih (if x.align > m then x.align else m) with h | ⟨f, hf, he⟩
+      · by_cases hx : x.align > m
+        · right; exact ⟨x, by simp, by rw [h]; simp [hx]⟩
+        · left; rw [h]; simp [hx]
+      · right; exact ⟨f, by simp [hf], he⟩
+  exact att l 1
+
+/-- if the fields' rounded sizes fit into `size` and every alignment divides `size`, then
+`pad (optimize fields)` is not larger than `size`. -/
+theorem pad_optimize_le (fields : List Rec) (size : Nat) (hp : ∀ f ∈ fields, Pow2 f.align)
+    (hfit : rsum fields ≤ size) (hdiv : ∀ f ∈ fields, f.align ∣ size) :
+    roundUp (rsum fields) (padAlignment fields) ≤ size := by
+  apply roundUp_min (padAlignment_pos _ hp) _ hfit
+  rcases padAlignment_attained fields with h1 | ⟨f, hf, he⟩
+  · rw [h1]; exact Nat.one_dvd _
+  · rw [← he]; exact hdiv f hf
+
 end Verif.C19
